@@ -533,6 +533,13 @@ class Session:
             root = u.root_name
         elif spelling == "slash":
             root = root_abs + "/"
+        elif spelling == "dot":
+            os.chdir(u.base)
+            root = "./" + u.root_name
+        elif spelling == "dotdot":
+            os.chdir(u.base)
+            os.makedirs(os.path.join(u.base, "xdir"), exist_ok=True)
+            root = "xdir/../" + u.root_name
         else:
             root = root_abs
         self.schedule_arg = None
